@@ -51,7 +51,7 @@ RULE = (
     "programs = {raise sites (7 quick / 11 thorough) x message classes (5 / 10) x exception classes (1 / 3)} + misuse sites "
     "+ ok runs x consumption {all, close, cancel} + cap-overshoot runs; histories = every single program and every ordered "
     "pair (second program from the reduced alphabet) on one connection; x transport configs {http INFO, http DEBUG, http "
-    "cap 1500, http cap 200, mem INFO, mem DEBUG}; one evaluation = one history on one config; non-trivial = at least one "
+    "cap 1500, http cap 200, http with the call-state cache disabled (cold worker) uncapped / cap 200, mem INFO, mem DEBUG}; one evaluation = one history on one config; non-trivial = at least one "
     "record was captured, classed by (transport, site of the last program, message class)"
 )
 TECHNIQUE = "exhaustive program x history x transport enumeration through the real dispatch paths; per-request pairing of observed HTTP exchanges with captured records; schema validation"
@@ -153,8 +153,13 @@ PRED_SITES = (
     "exch-finish", "big-exch",
 )
 
-CONFIGS_Q = [("http", "INFO", None), ("http", "DEBUG", None), ("http", "INFO", 1500), ("http", "INFO", 200), ("mem", "INFO", None), ("mem", "DEBUG", None)]
-CONFIGS_T = CONFIGS_Q + [("http", "DEBUG", 1500), ("http", "DEBUG", 200)]
+# "http-cold": call_state_cache_entries=0, i.e. every continuation / exchange / cancel turn is served like on a replica or a
+# restarted worker that has never seen the call (the call token is re-opened; nothing comes from the per-process cache)
+CONFIGS_Q = [
+    ("http", "INFO", None), ("http", "DEBUG", None), ("http", "INFO", 1500), ("http", "INFO", 200), ("http-cold", "INFO", None),
+    ("http-cold", "INFO", 200), ("mem", "INFO", None), ("mem", "DEBUG", None),
+]
+CONFIGS_T = CONFIGS_Q + [("http", "DEBUG", 1500), ("http", "DEBUG", 200), ("http-cold", "DEBUG", 1500)]
 
 
 # ------------------------------------------------------------------------------ capture
@@ -265,13 +270,13 @@ class Rig:
         self.open()
 
     def open(self) -> None:
-        if self.kind == "http":
+        if self.kind.startswith("http"):
             from vgi_rpc.http import http_connect
             from vgi_rpc.http._testing import make_sync_client
 
             inner = make_sync_client(
                 self.server, token_key=b"k" * 32, max_response_bytes=self.cap, enable_landing_page=False,
-                enable_describe_page=False, enable_not_found_page=False,
+                enable_describe_page=False, enable_not_found_page=False, call_state_cache_entries=0 if self.kind == "http-cold" else 4096,
             )
             self.wrap = HttpWrap(inner)
             self._cm = http_connect(prog.ScriptSvc, client=self.wrap, on_log=lambda m: None)
@@ -285,7 +290,7 @@ class Rig:
 
     def close_conn(self) -> None:
         try:
-            if self.kind == "http":
+            if self.kind.startswith("http"):
                 self._cm.__exit__(None, None, None)
             else:
                 self.conn.__exit__(None, None, None)
@@ -372,7 +377,7 @@ def judge(ctx: Ctx, cfg: tuple[str, str, int | None], site: str, call: Call, obs
         ctx.extra["server_deaths"] += 1
     # ---- (1) count / pairing
     pairs: list[tuple[dict[str, Any] | None, dict[str, Any]]] = []
-    if kind == "http":
+    if kind.startswith("http"):
         reqs = obs["reqs"]
         need = [r for r in reqs if r["status"] in (200, 500)]
         slack = len(reqs) - len(need)
